@@ -83,6 +83,11 @@ func genLine(r *sim.Rng, maxLen int) string {
 			s = s[:len(s)-1]
 		}
 	}
+	if r.Chance(1, 6) && len(s)+14 < maxLen {
+		// a line that is not a prompt as a whole but whose LAST TOKEN looks like one ("description
+		// uplink to core-rtr1#"): a search window that starts inside the line must not take it for the prompt
+		s = strings.TrimRight(s, " ") + " " + r.Pick([]string{"core-rtr1#", "r1(config)#", "sw2.lab>", "host@dev:~$"})
+	}
 	// a line must not look like a prompt: make sure it contains a space or is empty
 	if promptRe.MatchString(s) {
 		s = "x " + s
